@@ -894,11 +894,13 @@ class C15(Spec):
 # C16 -- line endings and reserved control characters
 
 class C16(Spec):
-    level_text = ('Full for the reader: C16_lines (splitting the re-encoded text gives back the lines, for every choice of LF/CRLF/CR per line '
-                  'and lines free of CR/LF -- a decode-encode round trip by induction over the line list, on the *generated* split regex via '
-                  'its characterisation lemma), C16_blanked (blank_reserved is idempotent, yields reserved-free text and commutes with '
-                  'mk_reader, so a source and its blanked version give the same reader). "None of them appears in the output" (placeholder '
-                  'protocol) is decided by the oracle and correspondence, not proved.')
+    level_text = ('Full for the line-ending half: C16_reader_spec (the reader splits on the *generated* pattern exactly like the reference '
+                  'splitter: the matcher is evaluated symbolically on that pattern), C16_lines (decode after encode: for every choice of LF / CR LF '
+                  '/ CR per line the lines come back, by induction over the line list; the one inherently ambiguous combination -- a CR terminator '
+                  'directly followed by an empty LF-terminated line -- is excluded), C16_same_lines and C16_render_recode (sources with the same '
+                  'lines render identically from every session, option set and fuel). Reserved characters: C16_blanked, C16_blank_spec, '
+                  'C16_reader_reserved_free (they are blanks for the renderer). That none of them appears in the *output* (placeholder protocol) '
+                  'is decided by the oracle and correspondence, not proved.')
     rule = ('token-soup documents re-encoded with random per-line terminators, and with reserved characters inserted at random positions; '
             'outputs must coincide and contain none of U+0000..U+0002; non-trivial as usual')
     state_keys = []
